@@ -478,7 +478,14 @@ def opSegs (f : Fam) (p : Text) (sched : String) (out : String) : String × Stri
       let cs := sched.toList
       let term := cs.getLast?.filter fun c => c == 'c' || c == 'l' || c == 'z'
       let body := if term.isSome then cs.dropLast else cs
-      let sr := Oracle.scheduleRem (segs p) (body.map (· == 'f'))
+      -- `N` = `nth(1)`, `B` = `nth_back(1)`: two steps, the first result is dropped
+      let steps : List (Bool × Bool) := body.flatMap fun c =>
+        if c == 'N' then [(true, false), (true, true)]
+        else if c == 'B' then [(false, false), (false, true)]
+        else [(c == 'f', true)]
+      let sr0 := Oracle.scheduleRem (segs p) (steps.map (·.1))
+      let kept := (sr0.1.zip (steps.map (·.2))).filterMap fun (o, k) => if k then some o else none
+      let sr : List (Option Text) × List Text := (kept, sr0.2)
       let tail : List String := match term with
         | some 'c' => [s!"rest={sr.2.length}"]
         | some 'l' => [s!"last={ohex sr.2.getLast?}"]
